@@ -23,6 +23,12 @@ const Rule = "cases = (implementation, hash function, HashOpts, shuffle seed, hi
 	"through their API with head non-terminals / states / row symbols whose REAL hashes collide modulo 31 and modulo (31, 67) — fills past the " +
 	"(m+1)/2 slots a quadratic probe sequence reaches, lookups of absent colliding keys, add/removeall churn with fresh colliding heads — every " +
 	"call under the watchdog, internal tables (m, n, u, slot digest) compared with the Model built from the call sites' HashOpts; " +
+	"hardening round: the generators of C02 with probe counts measured before every call and bounded by the capacity - threshold sweeps of the number of entries " +
+	"(0 .. 1025, 4482 / 9409, one size around 2^16 per seed for two implementations; thorough: all), long grow / shrink walks that visit many capacities under well-spread " +
+	"and under fully colliding hash functions (constants 0, 1, 5, 2^63, 2^64-1, mod 3, single bits) incl. the walk 31 .. 1117 .. 563 .. 293 past the prime squares 289 / 529, " +
+	"capacities next to powers of two and prime squares, load-factor bounds at the edges, churn of hundreds of operations with a small live set under every hash shape; " +
+	"productions / lrtable with 17 / 65 / 257 (thorough: 16 .. 1025) distinct keys and rows of n/4+17 symbols; component firstfollow (ORACLE ONLY, not run on the Model: " +
+	"ComputeFIRST / ComputeFOLLOW of grammars with that many non-terminals must return within 30 s with the sets the grammar has by construction; counted as oracle_only_cases); " +
 	"distinct = distinct (header, op list)"
 
 var mode = c02.Mode{ProbeBound: true, Watchdog: 2 * time.Second}
@@ -33,6 +39,8 @@ func Exec(c hx.Case) hx.Result {
 		return execProductions(c)
 	case "lrtable":
 		return execLRTable(c)
+	case "firstfollow":
+		return execFirstFollow(c)
 	}
 	return c02.ExecMode(c, mode)
 }
@@ -82,6 +90,9 @@ func Main(run *hx.Run) {
 		}
 	}
 	if mainInternal(run, lim) {
+		return
+	}
+	if c02.MainHarden(run, lim, Exec, true) {
 		return
 	}
 	degenerate := []string{"const", "mod3", "modm", "id", "fnv"}
